@@ -430,6 +430,7 @@ func TestC01(t *testing.T) {
 		}
 	}
 	c01Nested(t, c)
+	c01Lockstep(t, c)
 	c01Sched(t, c, thorough)
 	if thorough {
 		c01Real(c)
